@@ -103,9 +103,11 @@ class ConformerGenerator(object):
         """
         if not isinstance(num_conf, int) or num_conf < -1 or num_conf == 0:
             raise ValueError("num_conf must be either -1 or a positive integer")
+        self.num_conf = num_conf
         self.max_conformers = num_conf
         if not isinstance(first, int) or first < -1 or first == 0:
             raise ValueError("first must be either -1 or a positive integer")
+        self.first = first
         self.first_conformers = first
         if not rmsd_cutoff or rmsd_cutoff < 0:
             rmsd_cutoff = -1.0
@@ -220,9 +222,12 @@ class ConformerGenerator(object):
         logging.debug("Sanitizing mol for %s" % log_name)
         Chem.SanitizeMol(mol)
         logging.debug("Mol sanitized for %s" % log_name)
+        # resolve the targets for this molecule from the configured values
+        self.max_conformers = self.num_conf
         if self.max_conformers == -1 or type(self.max_conformers) is not int:
             self.max_conformers = self.get_num_conformers(mol)
         n_confs = self.max_conformers * self.pool_multiplier
+        self.first_conformers = self.first
         if self.first_conformers == -1:
             self.first_conformers = self.max_conformers
         logging.debug("Embedding %d conformers for %s" % (n_confs, log_name))
